@@ -8,6 +8,7 @@ Helper lemmas: `Lemmas/C16.lean` (erasure invariant), `Lemmas/C16Types.lean`.
 import KotoVerif.Lemmas.C16
 import KotoVerif.Lemmas.C16Types
 import KotoVerif.Lemmas.C16TryFree
+import KotoVerif.Lemmas.C16Graph
 
 namespace KotoVerif.C16
 open KotoVerif.Types KotoVerif.HintEval KotoVerif.Gen.TypeNames
@@ -108,41 +109,35 @@ theorem base_chain_any_depth (h : TyName) (v w : V) (k : Nat) (hs : ¬ isSpecial
     (hk : V.baseIter k v = some w) (hw : typeName w = h) : check h false v = true :=
   (check_spec h false v).mpr (Or.inr (Or.inr (Or.inr (Or.inr (Or.inr ⟨hs, k, w, hk, hw⟩)))))
 
-/-! ## Cyclic `@base` chains (outside the tree universe `V`; findings F-C16-1, F-C16-2) -/
+/-! ## Possibly cyclic `@base` chains (graph model; /repo fix 76738c2 for F-C16-1, F-C16-2) -/
 
-/-- Negation witness: on the one-node cycle (a map whose `@base` is itself, type `Bar`) the loop of
-`compare_value_type` has not answered the hint `Foo` after any number of steps. Replayed on the
-implementation by the harness (known finding F-C16-2). -/
-theorem base_walk_cyclic_diverges :
-    ∀ fuel, walkBase (fun _ => [66, 97, 114]) (fun n => some n) [70, 111, 111] fuel 0 = none := by
-  intro fuel
-  induction fuel with
-  | zero => rfl
-  | succ k ih => simpa [walkBase] using ih
+/-- **base_walk_total.** On *every* graph of maps — cyclic or not — the loop of `compare_value_type`
+(with its visited list) answers within `g.length + 1` steps, from every node and for every hint. -/
+theorem base_walk_total (g : Graph) (h : TyName) (n : Nat) :
+    ∃ r, walkG g h (g.length + 1) [] n = some r :=
+  walkG_total g h (g.length + 1) [] n (by rw [unvisited_nil]; exact Nat.lt_succ_self _)
 
-/-- What does hold for every graph: if the chain from `n` ends (reaches a node without `@base`)
-after `k` steps, the loop answers within `k + 1` steps. `_partial`: cyclic chains are excluded —
-there the property fails (`base_walk_cyclic_diverges`). -/
-theorem base_walk_terminates_partial (ty : Nat → TyName) (base : Nat → Option Nat) (h : TyName) :
-    ∀ k n e, reaches base k n e → base e = none → ∃ b, walkBase ty base h (k + 1) n = some b := by
-  intro k
-  induction k with
-  | zero =>
-    intro n e hr he
-    simp only [reaches] at hr
-    subst hr
-    exact ⟨false, by simp [walkBase, he]⟩
-  | succ k ih =>
-    intro n e hr he
-    obtain ⟨m, hm, hr'⟩ := hr
-    obtain ⟨b, hb⟩ := ih m e hr' he
-    by_cases hty : ty m = h
-    · exact ⟨true, by simp [walkBase, hm, hty]⟩
-    · exact ⟨b, by rw [walkBase]; simp only [hm, hty, if_false]; exact hb⟩
+/-- the same for `KMap::meta_type`, hence for `type_as_string` -/
+theorem meta_type_walk_total (g : Graph) (n : Nat) :
+    ∃ r, metaTypeG g (g.length + 1) [] n = some r :=
+  metaTypeG_total g (g.length + 1) [] n rfl (by rw [unvisited_nil]; exact Nat.lt_succ_self _)
 
-example : reaches (fun n => if n < 3 then some (n + 1) else none) 3 0 3 ∧
-    (fun n => if n < 3 then some (n + 1) else none) 3 = none := by
-  refine ⟨⟨1, rfl, 2, rfl, 3, rfl, rfl⟩, rfl⟩
+/-- a positive answer of the walk is backed by a map that is really on the chain -/
+theorem base_walk_sound (g : Graph) (h : TyName) (n : Nat) (hw : walkG g h (g.length + 1) [] n = some true) :
+    ∃ k b, reachesG g (k + 1) n b ∧ typeNameG g b = h :=
+  walkG_sound g h _ _ n hw
+
+/-- the former witnesses of F-C16-1 / F-C16-2 and a two-cycle: the walks now answer -/
+example :
+    -- a map whose `@base` is itself, no `@type`: type name `Object`, hint `Foo` does not match
+    typeNameG [⟨.absent, some 0⟩] 0 = objectName ∧ checkG [⟨.absent, some 0⟩] [70, 111, 111] false 0 = false ∧
+    -- the same with `@type: 'Bar'`
+    typeNameG [⟨.str [66, 97, 114], some 0⟩] 0 = [66, 97, 114] ∧
+    checkG [⟨.str [66, 97, 114], some 0⟩] [70, 111, 111] false 0 = false ∧
+    -- two maps that are each other's base, the second one is a `Foo`
+    checkG [⟨.str [66, 97, 114], some 1⟩, ⟨.str [70, 111, 111], some 0⟩] [70, 111, 111] false 0 = true ∧
+    checkG [⟨.str [66, 97, 114], some 1⟩, ⟨.str [70, 111, 111], some 0⟩] [66, 97, 122] false 0 = false := by
+  decide
 
 /-! ## Assertions: the single helper, and every position that uses it -/
 
